@@ -239,6 +239,11 @@ def random_network(rng, quick=True, force=None):
             pair.reverse()
         spec["controls"] += pair
         cid += 2
+        if rng.random() < 0.6:  # a SECOND setting control on the same valve (every one needs its own companion)
+            spec["controls"].append({"name": "c%d" % cid, "src": tk["name"], "attr": "level", "rel": rel,
+                                     "thr": round(mid + rng.choice([-0.5, 0.5, 0.8]), 2), "link": "VJ", "act": "setting",
+                                     "value": _r(rng, 10, 200, 1), "prio": rng.choice([0, 1, 2, 3, 4, 5, 6])})
+            cid += 1
     if spec["pumps"][0]["type"] == "HEAD" and force.get("speed_controls", rng.random() < 0.35):
         tk = rng.choice(spec["tanks"])
         spec["controls"].append({"name": "c%d" % cid, "src": tk["name"], "attr": "level", "rel": rng.choice(["ge", "le"]),
@@ -284,6 +289,30 @@ def specific_gravity_spec(sg=0.8):
     else:
         s["controls"] = [{"name": "pj", "src": "J", "attr": "pressure", "rel": "gt", "thr": 44.0, "link": "PX", "value": "CLOSED", "prio": 3},
                          {"name": "lt", "src": "T", "attr": "level", "rel": "ge", "thr": 2.3, "link": "PX", "value": "CLOSED", "prio": 3}]
+    return s
+
+
+def multi_setting_spec(kind="cond"):
+    """seeded/C03-7: SEVERAL setting controls on one valve with a status control between them: every setting control must
+    re-activate the valve (one companion `status := Active` per setting action of every control).
+    kind 'cond': tank-level conditions of rising priority (setting 45 @ level>=2 p3, CLOSED @ >=3 p5, setting 30 @ >=4 p6);
+    kind 'time': LINK V 45 AT TIME 1, CLOSED AT TIME 2, 30 AT TIME 4 (hours)."""
+    s = priority_presolve_spec(3, "max")
+    s["controls"] = []
+    s["tanks"][0]["max"] = 9.0
+    s["options"]["duration"] = 6 * 3600
+    s["junctions"].append({"name": "JV", "elev": 0.0, "demand": 0.004, "pattern": None})
+    s["valves"].append({"name": "V", "start": "J0", "end": "JV", "diam": 0.2, "type": "TCV", "setting": 20.0, "minor_loss": 0.0})
+    if kind == "cond":
+        s["controls"] += [
+            {"name": "s45", "src": "T0", "attr": "level", "rel": "ge", "thr": 2.0, "link": "V", "act": "setting", "value": 45.0, "prio": 3},
+            {"name": "close", "src": "T0", "attr": "level", "rel": "ge", "thr": 3.0, "link": "V", "act": "status", "value": "CLOSED", "prio": 5},
+            {"name": "s30", "src": "T0", "attr": "level", "rel": "ge", "thr": 4.0, "link": "V", "act": "setting", "value": 30.0, "prio": 6}]
+    else:
+        s["controls"] += [
+            {"name": "t45", "kind": "time", "time": 3600, "link": "V", "act": "setting", "value": 45.0, "prio": 3},
+            {"name": "tclose", "kind": "time", "time": 7200, "link": "V", "act": "status", "value": "CLOSED", "prio": 3},
+            {"name": "t30", "kind": "time", "time": 14400, "link": "V", "act": "setting", "value": 30.0, "prio": 3}]
     return s
 
 
